@@ -32,6 +32,7 @@ func C13(r *core.Run) {
 	provEnumPrefix(r)
 	siblingCountChoices(r)
 	exportsOfThisPackageOnly(r) // an appended service or topic does not change what existing references resolve to
+	subPackageFileNameInjective(r) // a declaration appended to one file does not replace the sub-package output of another
 }
 
 // provNumbers (R-PROV/V1).
